@@ -4,6 +4,8 @@
    PointGood / PointClear / PointRevokes / PointFails / BundleGood / CrlGood / DeltaGood are the
    declarative readings of the property text (Proofs/CrlCheck.v, top). *)
 From NCG Require Import Model.Crl Proofs.Crl Proofs.CrlCheck.
+From NCG Require Import Model.Revocation Proofs.SpecAcceptsModel.
+From NCG Require Run.C05.
 
 Theorem C05_ok_iff : forall fetch now st serial freshest urls, urls <> [] ->
   (cr_result (fst (crl_check fetch now st serial freshest urls)) = ROK <->
@@ -65,3 +67,10 @@ Theorem C05_fetch_log : forall fetch now st serial freshest urls,
     (cr_result (fst (crl_check fetch now st serial freshest urls)) = ROK -> rest = []).
 Proof. exact log_prefix. Qed.
 Print Assumptions C05_fetch_log.
+
+(* the clauses that the correspondence run applies to the leaf result of the IMPLEMENTATION (Run/C05.v) accept the
+   result of the model in every world *)
+Theorem C05_spec_side_accepts_model : forall w st leaf, c_crl leaf <> [] ->
+  Run.C05.c05_spec w st leaf (cr_result (fst (crl_check (w_fetch w) (w_now w) st (c_serial leaf) (c_freshest leaf) (c_crl leaf)))) = 0%Z.
+Proof. exact model_passes_c05_spec. Qed.
+Print Assumptions C05_spec_side_accepts_model.
